@@ -20,6 +20,7 @@ import (
 	"sort"
 	"strings"
 
+	pipeline "github.com/buildkite/go-pipeline"
 	"github.com/buildkite/go-pipeline/jwkutil"
 	"github.com/buildkite/go-pipeline/signature"
 	"github.com/lestrrat-go/jwx/v2/jwa"
@@ -125,6 +126,7 @@ func c18run(w *report.W) {
 				w.P.Evaluations++
 				want := a != "<missing>" && c18wantAccept(k.kty, a)
 				var verr error
+				signDrift := ""
 				pan := report.Catch(func() {
 					key, err := jwk.FromRaw(k.raw)
 					if err != nil {
@@ -153,7 +155,21 @@ func c18run(w *report.W) {
 						}
 					}
 					verr = jwkutil.Validate(key)
+					// the verdict is about the key as given: trying to sign with it (whatever that call returns) leaves the key -
+					// and therefore the verdict - as they were
+					before, _ := json.Marshal(key)
+					report.Catch(func() {
+						signature.Sign(sigCtx, key, &signature.CommandStepWithInvariants{CommandStep: pipeline.CommandStep{Command: "c"}, RepositoryURL: "r"})
+					})
+					after, _ := json.Marshal(key)
+					verr2 := jwkutil.Validate(key)
+					if string(before) != string(after) || (verr == nil) != (verr2 == nil) {
+						signDrift = fmt.Sprintf("key before Sign %s, after %s; Validate before: %v, after: %v", before, after, verr, verr2)
+					}
 				})
+				if signDrift != "" {
+					w.Violate(report.Violation{Kind: "sign-changes-key", Case: cs, Detail: signDrift, Size: 2})
+				}
 				if pan != "" {
 					w.Violate(report.Violation{Kind: "panic", Case: cs, Detail: pan, Size: 1})
 					continue
@@ -505,7 +521,7 @@ func init() {
 		ID: "C18",
 		Rule: "finite tables fully enumerated: 12 key forms (RSA-2048, EC P-256/384/521, Ed25519 private+public, two oct sizes) x every algorithm name the JOSE " +
 			"library registers (signature, key-encryption, content-encryption) plus none/unknown/empty/case and padding variants/missing, set programmatically and through " +
-			"JSON parsing; generated pairs (2 per approved algorithm) validate and the 6x6 sign/verify matrix x 3 payloads accepts exactly the diagonal; key-set files: " +
+			"JSON parsing (each key is then handed to signature.Sign once: the key and the verdict must be unchanged); generated pairs (2 per approved algorithm) validate and the 6x6 sign/verify matrix x 3 payloads accepts exactly the diagonal; key-set files: " +
 			"every list of <=3 keys over ids {a,b,none} x valid/invalid algorithm (and, for lists of <=2, a `use` member sig / enc, which the rule ignores) x requested id in {\"\",a,b,c} x the history on that path (no earlier load, an earlier load with each requested id, an earlier load while the path held another key set); key sets of 16..2048 keys (up to ~400 kB): first / middle / last / absent id. Non-trivial = rows the rule accepts, " +
 			"sign/verify pairs and key-set cases.",
 		Assumptions: []string{
